@@ -170,7 +170,7 @@ func gen(r *harn.Rng, tier string) interface{} {
 		if r.Bool(0.15) {
 			for try := 0; try < 5; try++ {
 				t := r.Intn(len(socks))
-				if t != gi && socks[t].host != s.host && isUp(sc.Hosts[s.host].Router, sc.Hosts[socks[t].host].Router) && sc.Hosts[socks[t].host].Socks[socks[t].idx].IPIdx >= 0 {
+				if t != gi && socks[t].host != s.host && isUp(sc.Hosts[s.host].Router, sc.Hosts[socks[t].host].Router) {
 					sc.Hosts[s.host].Socks[s.idx].Connect = t
 					break
 				}
@@ -659,9 +659,13 @@ func run(env *simrt.Env, sci interface{}) {
 	}
 	for _, s := range w.socks {
 		laddr := &net.UDPAddr{IP: net.ParseIP(s.bindIP), Port: s.port}
-		if s.spec.Connect >= 0 && s.spec.Connect < len(w.socks) && w.socks[s.spec.Connect].bindIP != "0.0.0.0" {
+		if s.spec.Connect >= 0 && s.spec.Connect < len(w.socks) {
 			t := w.socks[s.spec.Connect]
-			raddr := &net.UDPAddr{IP: net.ParseIP(t.bindIP), Port: t.port}
+			tip := t.bindIP
+			if tip == "0.0.0.0" {
+				tip = t.host.ips[0] // a wildcard socket answers from the host's first address
+			}
+			raddr := &net.UDPAddr{IP: net.ParseIP(tip), Port: t.port}
 			c, err := s.host.n.DialUDP("udp", laddr, raddr)
 			if err != nil {
 				env.Infra("DialUDP: %v", err)
